@@ -223,6 +223,19 @@ fn walk_calendar(cal: &str, cals: &[String], crate_al: &[(String, String)], thor
                 rebuild(t, r, cal, day, f, None, "mc");
                 rebuild(t, r, cal, day, f, None, "m");
                 if r.chance(1, 3) { rebuild(t, r, cal, day, f, None, "m+mc"); }
+                // month and monthCode that disagree: the number written inside the code where it is not the ordinal (after a leap month),
+                // otherwise a neighbouring ordinal
+                let (m, mc) = (f["month"].as_i64().unwrap_or(0), f["mc"].as_array().cloned().unwrap_or_default());
+                let num = if mc.len() >= 3 { mc[1].as_str().unwrap_or("0").parse::<i64>().unwrap_or(0) * 10 + mc[2].as_str().unwrap_or("0").parse::<i64>().unwrap_or(0) } else { 0 };
+                if num != m || leapish || r.chance(1, 3) {
+                    let wrong = if num >= 1 && num != m { num } else if m > 1 && r.chance(1, 2) { m - 1 } else { m + 1 };
+                    if (1..=255).contains(&wrong) && m >= 1 {
+                        let mut a = json!({"cal": cal, "n": day, "day": f["day"], "year": f["year"], "mc": f["mc"], "month": wrong});
+                        if let Some(o) = pick_ovf(r) { a["ovf"] = json!(o); }
+                        if r.chance(1, 5) { a["via"] = json!("calendar"); }
+                        t.call("Cal.Conflict", a);
+                    }
+                }
                 if !era.is_empty() {
                     let ey = f["ey"][0].as_i64().unwrap_or(0);
                     // the reported name itself first (baseline), then its synonyms
